@@ -43,6 +43,9 @@ class LogDest : public QIODevice
 {
 public:
     Faults *f; QStringList *obs; int writes = 0;
+    // `stopin:k`: the k-th write (counted from 0) stops the copier from inside the write, as a slot reached from the
+    // destination's own signals would
+    int stopIn = -1; QIODeviceCopier *copier = nullptr;
     // a destination that queues what it is given (as a socket does): bytesToWrite() reports the backlog,
     // `dack` takes some of it off and announces that with bytesWritten()
     bool buffered = false; qint64 pending = 0;
@@ -58,6 +61,7 @@ protected:
         if (writes++ == f->writeAt) return -1;
         if (n > 0) obs->append("x:1:" + hx(QByteArray(d, n)));
         if (buffered && n > 0) pending += n;
+        if (writes - 1 == stopIn && copier) copier->stop();
         return n;
     }
 };
@@ -70,12 +74,13 @@ void runCopier(const Scn &scn, Out &out)
     Faults f;
     QByteArray content; bool seq = false; qint64 block = 65536; bool hasRange = false; qint64 rf = 0, rt = -1;
     QStringList events;
-    bool dbuf = false; qint64 prepos = -1;
+    bool dbuf = false; qint64 prepos = -1; int stopIn = -1;
     foreach (const QString &t, scn.toks) {
         QStringList p = t.split(':');
         if (p[0] == "src") content = unhx(p[1]);
         else if (p[0] == "dbuf") dbuf = true;
         else if (p[0] == "prepos") prepos = p[1].toLongLong();
+        else if (p[0] == "stopin") stopIn = p[1].toInt();
         else if (p[0] == "seq") seq = true;
         else if (p[0] == "block") block = p[1].toLongLong();
         else if (p[0] == "range") { hasRange = true; rf = p[1].toLongLong(); rt = p[2].toLongLong(); }
@@ -95,6 +100,7 @@ void runCopier(const Scn &scn, Out &out)
     dst->buffered = dbuf;
     QIODeviceCopier *copier = new QIODeviceCopier(src, dst);
     copier->setBufferSize(block);
+    dst->stopIn = stopIn; dst->copier = copier;
     if (hasRange) copier->setRange(rf, rt);
     QObject::connect(copier, &QIODeviceCopier::finished, [obs]() { obs->append("x:2:-"); });
     QObject::connect(copier, &QIODeviceCopier::error, [obs](const QString &) { obs->append("x:3:-"); });
